@@ -26,8 +26,6 @@ TARGETS = [
     ("rollinit", "", "", "rollinit b"),
     ("rollactivate", "", "rollinit b\npump\n", "rollactivate b"),
     ("republish", "", "", "republish force"),
-    ("newca", "", "", "ca c"),
-    ("addchild", "", "ca c\n", "child a c 4"),
     ("cadelete", "", "", "cadelete b"),
     ("updateid", "", "", "updateid b"),
     ("syncshrunk", "", "childres a b 3\n", "sync b a"),
